@@ -5,10 +5,12 @@ import (
 	"encoding/json"
 	"fmt"
 	"os"
+	"runtime"
 	"runtime/debug"
 	"sort"
 	"strings"
 	"sync"
+	"sync/atomic"
 	"time"
 )
 
@@ -120,6 +122,8 @@ func fatal(f string, a ...interface{}) {
 	os.Exit(2)
 }
 
+const memBudget = 3 << 30
+
 func runJob(ld *Loaded, cfg *WorkerCfg, job Job) (res JobResult) {
 	res.Harness, res.Choices = job.Harness, job.Choices
 	resetTerms()
@@ -168,12 +172,37 @@ func runJob(ld *Loaded, cfg *WorkerCfg, job Job) (res JobResult) {
 	if cfg.ExecBudgetS > 0 {
 		e.deadline = time.Now().Add(time.Duration(cfg.ExecBudgetS) * time.Second)
 	}
+	// memory budget: a heap beyond memBudget ends the exploration like the time budget does
+	// (16 workers share 62 GB; an exploding job used to take 8 GB and more)
+	stopWatch := make(chan struct{})
+	go func() {
+		tk := time.NewTicker(2 * time.Second)
+		defer tk.Stop()
+		for {
+			select {
+			case <-stopWatch:
+				return
+			case <-tk.C:
+				var ms runtime.MemStats
+				runtime.ReadMemStats(&ms)
+				if ms.HeapAlloc > memBudget {
+					atomic.StoreInt32(&e.abort, 1)
+					return
+				}
+			}
+		}
+	}()
+	defer close(stopWatch)
 	var outs []Outcome
 	func() {
 		defer func() {
 			if r := recover(); r != nil {
 				if _, ok := r.(budgetExceeded); ok {
-					res.Incomplete = fmt.Sprintf("exploration budget of %ds exhausted after %d instructions; only the %d obligations collected so far are decided", cfg.ExecBudgetS, e.instrs, len(e.obls))
+					why := fmt.Sprintf("exploration budget of %ds", cfg.ExecBudgetS)
+					if atomic.LoadInt32(&e.abort) != 0 {
+						why = fmt.Sprintf("memory budget of %d MiB", memBudget>>20)
+					}
+					res.Incomplete = fmt.Sprintf("%s exhausted after %d instructions; only the %d obligations collected so far are decided", why, e.instrs, len(e.obls))
 					return
 				}
 				panic(r)
